@@ -46,6 +46,7 @@ func isVFSPtr(t types.Type) bool {
 }
 
 func runC07(c *Ctx) {
+	c.tooLargeIsDecidedByTheLimits("V21")
 	c.rule("V1", "every backend access (load of VFS.vfs) is dominated by checkWhetherUnderlyingResourceIsClosed() on the same filesystem and lies on the side where it returned nil (accesses inside function literals count where the literal is created)", 20)
 	c.rule("V2", "closeableResource.closed / .closeableResource are read under at least the read lock and written under the write lock of closeableResource.mu", 4)
 	c.rule("V3", "the guard returns an ErrCondition-kind error exactly on the IsClosed()==true side; no guarded function returns a nil error on the guard's failing side", 30)
